@@ -14,11 +14,15 @@ warnings.filterwarnings("ignore")
 
 
 class TorchStyleDtype:
-    def __init__(self, name):
+    """a dtype OBJECT (not a string) that only prints its name, the way torch / mlx dtypes do: `torch.float32`,
+    `mlx.core.float32`, `some.deeply.nested.lib.float32`, or the bare `float32`"""
+
+    def __init__(self, name, prefix="torch."):
         self._n = name
+        self._p = prefix
 
     def __repr__(self):
-        return "torch." + self._n
+        return self._p + self._n
 
 
 class DuckArr:
@@ -63,7 +67,7 @@ def raw_of(obj):
     if isinstance(d, str):
         raw["strVal"] = d
     else:
-        raw["reprTail"] = repr(d).rsplit(".", 1)[-1]
+        raw["reprFull"] = repr(d)
     return raw
 
 
@@ -141,6 +145,9 @@ def gather(with_tf=True):
                "float8_e4m3fn", "float8_e5m2"):
         k = dict(numeric).get(nm, "bool" if nm == "bool" else "other")
         rows.append(dict(canon=nm, kind=k, backend="duck-torch", alias=nm, make=(lambda n: lambda: DuckArr(TorchStyleDtype(n)))(nm)))
+        if nm in ("float32", "bfloat16", "int8", "uint8", "bool", "complex64", "int64", "float8_e5m2"):
+            for be, prefix in (("duck-mlx", "mlx.core."), ("duck-deep", "some.deeply.nested.lib."), ("duck-bare", "")):
+                rows.append(dict(canon=nm, kind=k, backend=be, alias=nm, make=(lambda n, p: lambda: DuckArr(TorchStyleDtype(n, p)))(nm, prefix)))
     rows.append(dict(canon="my_dtype", kind="other", backend="duck-str", alias="my_dtype", make=lambda: DuckArr("my_dtype")))
     for r in rows:
         r["raw"] = raw_of(r["make"]())
@@ -157,7 +164,7 @@ def render(rows):
         out.append(
             f"  ⟨{lean_str(r['canon'])}, .{r['kind'] if r['kind'] != 'struct' else 'other'}, {lean_str(r['backend'] + ':' + r['alias'])}, "
             f"⟨{opt(raw.get('typeName'))}, {opt(raw.get('structStr'))}, {opt(raw.get('npName'))}, {opt(raw.get('asNumpyName'))}, "
-            f"{opt(raw.get('strVal'))}, {lean_str(raw.get('reprTail', ''))}⟩⟩"
+            f"{opt(raw.get('strVal'))}, {lean_str(raw.get('reprFull', ''))}⟩⟩"
         )
     txt = (
         "/- GENERATED by harness/envrows.py from the array libraries installed in this environment\n"
